@@ -45,6 +45,13 @@ def run(tier, seed):
                         for k in range(1, nk + 1, max(1, nk // 12)):
                             runs.append({"args": ["--workload", wl, "--rounds", "2", "--scale", "4", "--recover", "1", "--fault", str(k), "--kind", str(kind), "--persist"],
                                          "env": env, "tag": "%s.%s.%s" % (wl, sn, KINDS[kind]), "build": b})
+    if q:     # a thin sample of the per-kind persistent refusals (thorough enumerates them): commits / mappings refused for good from early on
+        for wl in ("mt", "large"):
+            for sn, env in (("noarena", SETTINGS[3][1]), ("lazy", SETTINGS[2][1])):
+                for kind in (1, 3):
+                    for k in (1, 3, 6):
+                        runs.append({"args": ["--workload", wl, "--rounds", "2", "--scale", "4", "--recover", "1", "--fault", str(k), "--kind", str(kind), "--persist"],
+                                     "env": env, "tag": "%s.%s.%s" % (wl, sn, KINDS[kind]), "build": "dbg" if (k + kind) % 2 == 0 else "rel"})
     vlib.log("  %d fault runs (%d OS-call positions in the dry runs)" % (len(runs), positions))
     return osfam.run_os("C07", tier, seed, runs, builds=builds, own_guards=GUARDS, crash_decisive=True, group=(24 if q else 40),
                         level="fault_enumeration",
